@@ -580,7 +580,7 @@ INTROSPECT_EXCLUDE = {
 
 _prop_cache = {}
 READ_METHODS = {"Section": ("inherited_properties", "find_related"), "DataFrame": ("row_count",),
-                "DataArray": ("len",), "File": ("is_open",)}
+                "DataArray": ("len", "iter_dimensions"), "File": ("is_open",)}
 
 
 def public_properties(cls):
@@ -648,7 +648,11 @@ def _walk_introspect(f):
         # public zero-argument read methods that are not properties
         for mname in READ_METHODS.get(type(ent).__name__, ()):
             try:
-                rec[mname + "()"] = _icanon(getattr(ent, mname)())
+                v = getattr(ent, mname)()
+                if inspect.isgenerator(v):
+                    v = tuple((i, type(x).__name__, getattr(x, "index", None)) if isinstance(i, int) else repr((i, x))
+                              for i, x in v)
+                rec[mname + "()"] = _icanon(v)
             except Exception as e:  # noqa
                 rec[mname + "()"] = Raises(e)
         if type(ent).__name__ == "DataArray":
